@@ -34,7 +34,8 @@ LEVEL_TEXT = ("Establishment outcomes x per-request answer modes x relative orde
               ' Also an answer that precedes the 202 with another message written right behind it (order), malformed answer events, and leaving the context with a pending request after the server ended the event stream.'
               ' Also the tasks, HTTP clients and read stream left by each life of one transport object that is entered again (after a normal exit, after a refused entry).'
               ' Also a request waiting after its 202 while comments or unrelated notifications arrive more often than the timeout.'
-              ' Also endpoints announced as relative references without a slash, with and without a query.')
+              ' Also endpoints announced as relative references without a slash, with and without a query.'
+              ' Also every request mode followed by a healthy request and a notification (deterministically), and a 300 kB server message arriving in pieces of 1, 16 and 64 KiB.')
 LEVEL_NOTE = ("Trusted: httpx.MockTransport + TimedByteStream behave like a server (chunks at chosen virtual times); "
               "asyncio.all_tasks() and AsyncClient.is_closed as the leak oracle. Event stream uses the canonical "
               "'event: message / data: ...' encoding (encodings are C11's subject).")
